@@ -135,13 +135,24 @@ Definition cert_complete (r : erun (R:=R)) (inputs : list (list nat)) : bool :=
   else count_coinc r inputs <=? fold_right Nat.mul 1 (map snd (kvars r)).
 
 (** 0 = all premises of the equality theorem hold; 1 = those of the soundness half only;
-    2 = the operand premises fail; 3 = the substitution premises fail; 4 = the view premises fail *)
+    2 = the operand premises fail; 3 = the substitution premises fail; 4 = the view premises fail
+    (6, in [einsum_cert]: the re-defaulted / freshened operands do not denote the given ones) *)
 Definition cert_verdict (r : erun (R:=R)) (inputs : list (list nat)) (output : list nat) : nat :=
   if negb (cert_operands r inputs output) then 2
   else if er_failed r || er_zero_axis r then (if cert_complete r inputs then 0 else 1)
   else if negb (cert_subst r) then 3
   else if negb (cert_views r) then 4
   else if cert_complete r inputs then 0 else 1.
+
+(** the operands the algorithm works on ([default_to(zero)], [freshen]) denote the given operands:
+    same shapes, same brute-force denotation at every index tuple inside the shape *)
+Definition cert_pre (r : erun (R:=R)) (ts0 : list (ptensor R)) : bool :=
+  let ts := map st_pt (er_ts r) in
+  Nat.eqb (length ts0) (length ts)
+  && forallb (fun t0 => repr_inv_b (map snd (paxes t0)) (paxes t0) (vaxes t0)) ts0
+  && forallb (fun tt => leqb (shape R (fst tt)) (shape R (snd tt))
+                        && forallb (fun idx => veqb (dspec (fst tt) idx) (dspec (snd tt) idx)) (all_assts (shape R (fst tt))))
+             (combine ts0 ts).
 
 (** premises of the pointer theorem (C07_argmax): the summed-out einsum indices left in
     index_to_vaxis are the summed labels of the specification, in its order; the strides of
@@ -165,7 +176,7 @@ Definition viterbi_cert (x : list (wten (W:=W)) * list (list nat) * list nat * p
   let '(wts, inputs, output, next) := x in
   let ts := map (st_of_wire ofw) wts in
   match einsum_run o veqb false next ts inputs output with
-  | Ok r => let c := cert_verdict r inputs output in
+  | Ok r => let c := if cert_pre r (map st_pt ts) then cert_verdict r inputs output else 6 in
             if negb (Nat.eqb c 0) then c
             else if er_failed r || er_zero_axis r then 0
             else if cert_viterbi r inputs output then 0 else 5
@@ -176,7 +187,7 @@ Definition einsum_cert (x : list (wten (W:=W)) * list (list nat) * list nat * po
   let '(wts, inputs, output, next) := x in
   let ts := map (st_of_wire ofw) wts in
   match einsum_run o veqb false next ts inputs output with
-  | Ok r => cert_verdict r inputs output
+  | Ok r => if cert_pre r (map st_pt ts) then cert_verdict r inputs output else 6
   | Fail _ => 9
   end.
 End Cert.
